@@ -106,12 +106,16 @@ def _mk_msg(rng, uid, kinds):
         return {"cmd": "feefilter", "payload": codecs.feefilter((uid << 20) | rng.getrandbits(20)).hex()}
     if kind == "sendcmpct":
         return {"cmd": "sendcmpct", "payload": codecs.sendcmpct(rng.randrange(2), (uid << 8) | 1).hex()}
+    if kind == "table-cmd":
+        # the rest of the command table: the node has no handler for these, they are queued
+        cmd = rng.choice(["getdata", "getblocks", "tx", "block", "block", "headers", "pong", "alert", "reply", "submitorder", "checkorder"])
+        return {"cmd": cmd, "payload": (b"%s#%d" % (cmd.encode(), uid)).hex() if cmd != "pong" else codecs.ping((uid << 32) | 7).hex()}
     if kind == "unknown":
         return {"cmd": rng.choice(["foo", "wtxidrelay", "sendaddrv2x"]), "payload": (b"u%d" % uid).hex()}
     raise HarnessError(kind)
 
 
-ALL_KINDS = ["ping", "ping", "version", "verack", "inv", "addr", "getaddr", "feefilter", "sendcmpct", "unknown"]
+ALL_KINDS = ["ping", "ping", "version", "verack", "inv", "addr", "getaddr", "feefilter", "sendcmpct", "unknown", "table-cmd", "table-cmd"]
 BIG_KINDS = ALL_KINDS * 2 + ["big-inv", "big-addr"]
 
 
@@ -268,6 +272,10 @@ def plan(seed, tier="quick", index=0):
     if stratum == "stop-at":
         horizon = max(s[0] for p in peers for s in p["segments"]) + 0.5
         sc["stop"] = {"mode": "at", "t": round(rng.random() * horizon, 4)}
+    if rng.random() < 0.12:
+        # an earlier Node object lived (and was stopped) in the same process before this one
+        pm = _mk_msg(rng, 800, ["inv", "addr", "table-cmd"])
+        sc["prior_node"] = {"port": 18800, "msgs": [pm], "segments": [[0.0, frames.frame(magic, pm["cmd"], bytes.fromhex(pm["payload"])).hex()]]}
     if stratum == "churn":
         # one peer hangs up after its last message; later a new peer is connected while the
         # others are (possibly) still receiving
@@ -406,10 +414,14 @@ def execute(scenario, tape=None, keep_events=False):
     for i, pd in enumerate(scenario["peers"]):
         segs = [(t, bytes.fromhex(h)) for t, h in pd["segments"]]
         peers.append(Peer(i, f"10.0.0.{i + 1}", pd["port"], segs, close_after=bool(pd.get("hangup"))))
+    prior = scenario.get("prior_node")
+    prior_peer = None
+    if prior:
+        prior_peer = Peer(-1, "10.0.7.1", prior["port"], [(t, bytes.fromhex(h)) for t, h in prior["segments"]])
     late = scenario.get("late_peer")
     if late:
         peers.append(Peer(len(peers), "10.0.0.99", late["port"], [(t, bytes.fromhex(h)) for t, h in late["segments"]]))
-    net = Net(sched, peers, faults, sub_rng(seed, "net"), short_read_rate=scenario["short_read_rate"])
+    net = Net(sched, peers + ([prior_peer] if prior_peer else []), faults, sub_rng(seed, "net"), short_read_rate=scenario["short_read_rate"])
     clock = SimClock(sched, scenario["epoch"])
     ctx = Ctx(sched, probes)
     for jt, jd in scenario.get("clock_jumps", []):
@@ -427,7 +439,17 @@ def execute(scenario, tape=None, keep_events=False):
     aborted = None
     still_running = 0
     with P2PEnv(sched, net, clock, scenario["network"]):
+        t_base = 0.0
         try:
+            if prior_peer:
+                n0 = p2p.Node(seeds=[f"{prior_peer.host}:{prior_peer.port}"])
+                n0.start()
+                sched.block(sched.quiescent, None, what="driver-prior-quiescent")
+                n0.stop()
+                sched.block(sched.others_done, sched.now + 60.0, what="driver-prior-join")
+                faults.hit("earlier-node-in-same-process")
+                t_base = sched.now
+                # the main scenario's delivery times are relative to the connects that follow
             node = p2p.Node(seeds=[f"{p.host}:{p.port}" for p in peers if not (late and p is peers[-1])])
             q = getattr(node, "_msg_queue", None)
             if type(q) is deque:
@@ -437,11 +459,11 @@ def execute(scenario, tape=None, keep_events=False):
                 node._registered_commands_to_handle = LogList(r)._bind(ctx)
             node.start()
             if late:
-                sched.block(lambda: False, late["at"], what="driver-wait-late-peer")
+                sched.block(lambda: False, t_base + late["at"], what="driver-wait-late-peer")
                 faults.hit("peer-connected-while-others-receive")
                 node.connect_peer(peers[-1].host, peers[-1].port)
             if scenario["stop"]["mode"] == "at":
-                sched.block(lambda: False, scenario["stop"]["t"], what="driver-wait")
+                sched.block(lambda: False, t_base + scenario["stop"]["t"], what="driver-wait")
                 faults.hit("stop-while-in-flight")
             else:
                 sched.block(sched.quiescent, None, what="driver-quiescent")
